@@ -45,6 +45,7 @@ JudgeOrigin(e) ==
   If(e.blocklen # BlockLen(e.n), {"origin-blocklen"})
   \cup If(e.full /\ e.lines # Lines(e.n), {"origin-layout"})
   \cup If(~e.full /\ (e.nlines # NLines(e.n) \/ e.lastline # (IF e.n = 0 THEN [idx |-> 0, groups |-> <<>>] ELSE LineAt(e.n, NLines(e.n) - 1))), {"origin-layout"})
+  \cup If(\E j \in 1..Len(e.probes) : e.probes[j].line # LineAt(e.n, e.probes[j].k), {"origin-layout"})
   \cup If(~e.content, {"origin-content"})
   \cup If(e.lennodecode # e.n, {"origin-len-nodecode"})
   \cup If(~e.byteseq, {"origin-decode"})
